@@ -28,7 +28,7 @@ def check(s, rep, name, bounds, expect_unsat=True):
     return r, (s.model() if r == "sat" else None), dt
 
 
-def validate_model(rep, G, E, s_base, acc, n_each=12, label="peg"):
+def validate_model(rep, G, E, s_base, acc, n_each=12, label="peg", relayout=False):
     """Serval-style validation of the encoding: solver-diversified streams on the accept and on the
     reject side are rendered to text and run through the REAL parser; verdicts must agree.
     Returns number of cases validated; records a harness error on disagreement."""
@@ -53,6 +53,10 @@ def validate_model(rep, G, E, s_base, acc, n_each=12, label="peg"):
             except (ValueError, AssertionError):
                 real = "accept"      # grammar accepted; a parse action's validation rejected (not modelled)
             n += 1
+            if relayout and real == "accept":
+                if layout_differential(rep, G, E.tokens(m)):
+                    s_base.pop()
+                    return n
             if real != side:
                 rep.harness_error("encoding disagrees with the real parser on %r: model=%s real=%s" % (text, side, real))
             elif i < 2:
@@ -94,3 +98,61 @@ def comment_anomalies(rep, G, pid):
         else:
             rep.harness_error("ignorable %s %s on %r but the differential replay shows no difference" % (ig, what, text))
     return len(seen)
+
+
+# ------------------------------------------------------------------ concrete re-layout of solver-produced streams
+def layouts_of(G, toks):
+    """Render one token list under several layouts inside the stated re-layout domain."""
+    V = G.V
+    n = len(toks)
+    def sep_allowed_comment(k):
+        # k = boundary before token k (1..n-1).  No comment between a default atom and its delimiter; include glued.
+        if k >= 2 and toks[k - 2] == "=" and toks[k - 1] != "{":
+            return False
+        return True
+    def in_include(k):
+        return (k >= 2 and toks[k - 2] == "#include") or (k >= 3 and toks[k - 3] == "#include")
+    schemes = {"space": " ", "newline": "\n", "block": " /*c*/ ", "line": " // c\n", "glued": "", "gluedblock": "/*c*/", "doc": " /** { ; \" class **/ "}
+    out = {}
+    for name, sp in schemes.items():
+        text = ""
+        for k, t in enumerate(toks):
+            if k > 0:
+                if in_include(k):
+                    s = ""
+                elif name in ("glued",):
+                    s = "" if G.glue_ok(toks[k - 1], t) else " "
+                elif name == "gluedblock":
+                    s = sp if sep_allowed_comment(k) else " "
+                elif name in ("block", "line", "doc"):
+                    s = sp if sep_allowed_comment(k) else " "
+                else:
+                    s = sp
+                text += s
+            text += t
+        if name in ("block", "line", "doc"):
+            text = sp.lstrip(" ") + text + sp.rstrip(" ") if name != "line" else "// c\n" + text + " // c"
+        out[name] = text
+    return out
+
+
+def layout_differential(rep, G, toks, pid="C12"):
+    """Real parser on every layout of one token list; a difference is a reproduced C12 violation."""
+    import gtwrap.interface_parser as parser
+    from harness.project import project
+    outs = {}
+    for name, text in layouts_of(G, toks).items():
+        try:
+            outs[name] = ("tree", project(parser.Module.parseString(text)))
+        except Exception as ex:
+            outs[name] = ("reject", type(ex).__name__ if not isinstance(ex, (ValueError, AssertionError)) else "validation")
+    rep.extra["layout_renderings_replayed"] = rep.extra.get("layout_renderings_replayed", 0) + len(outs)
+    base = outs["space"]
+    for name, o in outs.items():
+        if o != base:
+            la = layouts_of(G, toks)
+            rep.violation("layouts `space` and `%s` of the same tokens differ: %r -> %s, %r -> %s" % (
+                name, la["space"], base[0] if base[0] == "tree" else base, la[name], o[0] if o[0] == "tree" else o),
+                dict(kind="c12-layout", a=la["space"], b=la[name], property=pid))
+            return True
+    return False
